@@ -39,6 +39,7 @@ def sources():
         ("own_schemas", os.path.join(core.REPO, "xsdata", "schemas"), False, 1),
         ("cycle", os.path.join(core.VERIF, "sim", "c12", "schemas", "cycle"), False, 4),
         ("mixed", os.path.join(core.VERIF, "sim", "c12", "schemas", "mixed"), False, 3),
+        ("choices", os.path.join(core.VERIF, "sim", "c12", "schemas", "choices"), False, 4),
         ("samename", os.path.join(core.VERIF, "sim", "c12", "schemas", "samename"), False, 4),
         ("samename_ledger", os.path.join(core.VERIF, "sim", "c12", "schemas", "samename", "ledger.xsd"), False, 2),
         ("harness_all", os.path.join(core.VERIF, "sim", "c12", "schemas"), True, 3),
@@ -52,7 +53,7 @@ def gen_params(rng):
     if rng.random() < 0.5:
         p["docstring_style"] = rng.choice(["reStructuredText", "NumPy", "Google", "Accessible", "Blank"])
     for key, prob in (
-        ("compound_fields__enabled", 0.4), ("wrapper_fields", 0.3), ("unnest_classes", 0.3), ("relative_imports", 0.3),
+        ("compound_fields__enabled", 0.5), ("wrapper_fields", 0.3), ("unnest_classes", 0.3), ("relative_imports", 0.3),
         ("generic_collections", 0.2), ("ignore_patterns", 0.2), ("format__frozen", 0.2), ("format__slots", 0.2),
         ("format__order", 0.15), ("format__eq", 0.15), ("format__repr", 0.1), ("format__unsafe_hash", 0.1), ("include_header", 0.25),
     ):
